@@ -70,7 +70,7 @@ var gCidrBig = []string{"fd00::/64", "fd01::/120", "fd02::/67", "fd03::/67", "fd
 var gPoolNames = []string{"pa", "pb", "pc", "pd", "pe"}
 var gNss = []string{"ns1", "ns2"}
 var gSvcNames = []string{"ns1/a", "ns1/b", "ns2/c", "ns2/d", "ns1/e"}
-var gPortLib = []Port{{"TCP", 80}, {"TCP", 443}, {"UDP", 53}}
+var gPortLib = []Port{{"TCP", 80}, {"TCP", 443}, {"UDP", 53}, {"TCP", 53}, {"UDP", 80}}
 var gLabelLib = []map[string]string{{}, {"app": "a"}, {"app": "b"}, {"app": "a", "tier": "x"}}
 var gSelLib = []map[string]string{{"app": "a"}, {"app": "b"}, {"tier": "x"}}
 
